@@ -6,7 +6,7 @@ import itertools
 
 LEVEL = "exploration"
 
-DEFS = ["none", "k=d", "export k=x"]          # definition-time
+DEFS = ["none", "k=d", "export k=x", "export j=y"]          # definition-time ("export j=y": ANOTHER option name is exported at this level)
 CALLS = ["none", "options k=c", "export_options k=e", "options k=expr", "export_options k=nested-expr"]  # call-time
 
 
@@ -46,6 +46,8 @@ def build(levels, tag):
             kw["k"] = f"d{i}"
         elif d == "export k=x":
             kw["export_options"] = {"k": f"x{i}"}
+        elif d == "export j=y":
+            kw["export_options"] = {"j": f"y{i}"}
         f = make_body(i)
         f.__name__ = f"L{i}"
         REG[i] = task(name=f"L{i}_{tag}", namespace="c27", **kw)(f)
@@ -62,6 +64,9 @@ def build(levels, tag):
         elif d == "export k=x":
             opts["k"] = f"x{i}"
             names.add("k")
+        elif d == "export j=y":
+            opts["j"] = f"y{i}"
+            names.add("j")
         for k in exported_names:
             if k in parent_opts:
                 opts[k] = parent_opts[k]
@@ -75,7 +80,7 @@ def build(levels, tag):
         elif c == "export_options k=nested-expr":
             opts["k"] = {"a": [201 + i]}
             names.add("k")
-        ref[f"c27.L{i}_{tag}"] = opts.get("k", "<unset>")
+        ref[f"c27.L{i}_{tag}"] = (opts.get("k", "<unset>"), opts.get("j", "<unset>"))
         exported_names, parent_opts = names, opts
     return call_level(1), ref
 
@@ -105,7 +110,7 @@ def work(arg):
 
         def on_submit(job, script=False, seen=seen, imposed=imposed):
             o = job.get_options()
-            seen[job.task.fullname] = concrete(o.get("k", "<unset>"))
+            seen[job.task.fullname] = (concrete(o.get("k", "<unset>")), o.get("j", "<unset>"))
             imposed[job.task.fullname] = (repr(o.get("cache_scope")), o.get("prov", True))
             return orig(job, script)
 
@@ -186,7 +191,8 @@ def run(ctx):
     combos = [(lv, "normal") for lv in itertools.product(per_level, repeat=3)]
     combos += [(lv, "nocache") for lv in itertools.product(per_level, repeat=2)]
     if ctx.quick:
-        combos = [c for c in combos if len(c[0]) == 2 or c[0][2][0] != "export k=x" or c[0][2][1] == "none"]
+        # quick: the third level only observes (plain / plain definition option, no or plain call-time option); every placement at levels 1-2
+        combos = [c for c in combos if len(c[0]) == 2 or (c[0][2][0] in ("none", "k=d") and c[0][2][1] in ("none", "options k=c"))]
     combos = ctx.rotate(combos)
     chunks = [(i, combos[i:i + 30]) for i in range(0, len(combos), 30)]
     res = ctx.pmap(work, chunks, chunksize=1)
